@@ -277,12 +277,37 @@ impl fmt::Display for CaseItem {
     }
 }
 
+/// Tests if the first command of the list is a subshell that is not negated.
+fn starts_with_subshell(list: &List) -> bool {
+    let Some(item) = list.0.first() else {
+        return false;
+    };
+    let pipeline = &item.and_or.first;
+    !pipeline.negation
+        && matches!(
+            pipeline.commands.first().map(|command| &**command),
+            Some(Command::Compound(FullCompoundCommand {
+                command: CompoundCommand::Subshell { .. },
+                ..
+            }))
+        )
+}
+
 impl fmt::Display for CompoundCommand {
     fn fmt(&self, f: &mut fmt::Formatter<'_>) -> fmt::Result {
         use CompoundCommand::*;
         match self {
             Grouping(list) => write!(f, "{{ {list:#} }}"),
-            Subshell { body, .. } => write!(f, "({body})"),
+            Subshell { body, .. } => {
+                f.write_char('(')?;
+                // This space is to prevent `((` from being taken for the
+                // beginning of an arithmetic command, which is how other
+                // shells (and this parser in the portable mode) see it.
+                if starts_with_subshell(body) {
+                    f.write_char(' ')?;
+                }
+                write!(f, "{body})")
+            }
             For { name, values, body } => {
                 write!(f, "for {name}")?;
                 if let Some(values) = values {
